@@ -29,9 +29,9 @@ func (r *RNG) Intn(n int) int {
 	}
 	return int(r.U64() % uint64(n))
 }
-func (r *RNG) Bool() bool          { return r.U64()&1 == 1 }
+func (r *RNG) Bool() bool            { return r.U64()&1 == 1 }
 func (r *RNG) Chance(p float64) bool { return float64(r.U64()%1000000)/1000000 < p }
-func Pick[T any](r *RNG, xs []T) T { return xs[r.Intn(len(xs))] }
+func Pick[T any](r *RNG, xs []T) T   { return xs[r.Intn(len(xs))] }
 
 // ---------------------------------------------------------------- model process
 
@@ -141,7 +141,7 @@ func NewReport(prop, tier string, seed uint64) *Report {
 	return &Report{Property: prop, Tier: tier, Seed: seed, Corr: map[string]int{}, Oracle: map[string]int{}, Dist: map[string]int{}, distinct: map[string]bool{}}
 }
 
-func (r *Report) Count(key string)  { r.Dist[key]++ }
+func (r *Report) Count(key string) { r.Dist[key]++ }
 func (r *Report) Seen(key string, nontrivial bool) {
 	r.Evaluations++
 	if nontrivial && !r.distinct[key] {
